@@ -42,3 +42,75 @@ package clientgen
 //@   ensures refuses: err != nil ==> !spec.AllOK_timestampFormat(messages)
 //@   loop 1 invariant forall k int :: 0 <= k && k < _i1 ==> spec.MsgOK_timestampFormat(messages[k]) && spec.AllOK_timestampFormat(messages[k].Messages)
 //@   loop 2 invariant forall j int :: 0 <= j && j < _i2 ==> spec.Rule_timestampFormat(msg.Fields[j])
+
+//@ func hasFlattenFields(message *protogen.Message) (r bool)
+//@   pure
+//@   ensures r == spec.hasFlatten(message)
+
+//@ func detectMarshalJSONConflicts(msg *protogen.Message) (r []string)
+//@   pure
+
+//@ func validateFlattenMarshalJSONConflict(msg *protogen.Message) (err error)
+//@   pure
+//@   ensures (err == nil) <==> len(detectMarshalJSONConflicts(msg)) == 0
+
+//@ func validateFlattenInMessages(messages []*protogen.Message) (err error)
+//@   decreases spec.depth(messages)
+//@   ensures ok: err == nil ==> spec.AllOK_flatten(messages)
+//@   loop 1 invariant forall k int :: 0 <= k && k < _i1 ==> spec.MsgOK_flatten(messages[k]) && spec.AllOK_flatten(messages[k].Messages)
+//@   loop 2 invariant forall j int :: 0 <= j && j < _i2 ==> spec.Rule_flattenField(msg.Fields[j])
+
+//@ func validateOneofDiscriminatorInMessages(messages []*protogen.Message) (err error)
+//@   decreases spec.depth(messages)
+//@   ensures ok: err == nil ==> spec.AllOK_oneof(messages)
+//@   ensures refuses: err != nil ==> !spec.AllOK_oneof(messages)
+//@   loop 1 invariant forall k int :: 0 <= k && k < _i1 ==> spec.MsgOK_oneof(messages[k]) && spec.AllOK_oneof(messages[k].Messages)
+//@   loop 2 invariant forall j int :: 0 <= j && j < _i2 && annotations.GetOneofConfig(msg.Oneofs[j]) != nil ==> spec.OneofOK(msg, msg.Oneofs[j])
+
+//@ func validateEnumAnnotations(field *protogen.Field) (err error)
+//@   pure
+//@   ensures iff: (err == nil) <==> spec.Rule_enum(field)
+//@   ensures names: err != nil ==> contains(errmsg(err), string(field.Desc.Name()))
+
+//@ func (g *Generator) validateEnumAnnotationsInMessage(msg *protogen.Message) (err error)
+//@   decreases spec.mdepth(msg)
+//@   ensures ok: err == nil ==> spec.EnumOK(msg)
+//@   ensures refuses: err != nil ==> !spec.EnumOK(msg)
+//@   loop 1 invariant forall j int :: 0 <= j && j < _i1 ==> spec.Rule_enum(msg.Fields[j])
+//@   loop 2 invariant forall k int :: 0 <= k && k < _i2 ==> spec.EnumOK(msg.Messages[k])
+
+//@ func (g *Generator) validateEnumAnnotationsInFile(file *protogen.File) (err error)
+//@   ensures ok: err == nil ==> spec.AllOK_enum(file.Messages)
+//@   ensures refuses: err != nil ==> !spec.AllOK_enum(file.Messages)
+//@   loop 1 invariant forall k int :: 0 <= k && k < _i1 ==> spec.EnumOK(file.Messages[k])
+
+//@ func (g *Generator) generateBytesEncodingFile(file *protogen.File) (err error)
+//@   ensures err == nil ==> spec.AllOK_bytes(file.Messages)
+
+//@ func (g *Generator) generateNullableEncodingFile(file *protogen.File) (err error)
+//@   ensures err == nil ==> spec.AllOK_nullable(file.Messages)
+
+//@ func (g *Generator) generateEmptyBehaviorEncodingFile(file *protogen.File) (err error)
+//@   ensures err == nil ==> spec.AllOK_emptyBehavior(file.Messages)
+
+//@ func (g *Generator) generateTimestampFormatEncodingFile(file *protogen.File) (err error)
+//@   ensures err == nil ==> spec.AllOK_timestampFormat(file.Messages)
+
+//@ func (g *Generator) generateFlattenFile(file *protogen.File) (err error)
+//@   ensures err == nil ==> spec.AllOK_flatten(file.Messages)
+
+//@ func (g *Generator) generateOneofDiscriminatorFile(file *protogen.File) (err error)
+//@   ensures err == nil ==> spec.AllOK_oneof(file.Messages)
+
+//@ func (g *Generator) generateFile(file *protogen.File) (err error)
+//@   ensures enum: err == nil ==> spec.AllOK_enum(file.Messages)
+//@   ensures nullable: err == nil ==> spec.AllOK_nullable(file.Messages)
+//@   ensures emptyBehavior: err == nil ==> spec.AllOK_emptyBehavior(file.Messages)
+//@   ensures timestampFormat: err == nil ==> spec.AllOK_timestampFormat(file.Messages)
+//@   ensures bytes: err == nil ==> spec.AllOK_bytes(file.Messages)
+//@   ensures flatten: err == nil ==> spec.AllOK_flatten(file.Messages)
+//@   ensures oneof: err == nil ==> spec.AllOK_oneof(file.Messages)
+
+//@ func (g *Generator) Generate() (err error)
+//@   ensures rules: err == nil ==> (forall k int :: 0 <= k && k < len(g.plugin.Files) && g.plugin.Files[k].Generate ==> spec.FileOK_client(g.plugin.Files[k]))
+//@   loop 1 invariant forall k int :: 0 <= k && k < _i1 && g.plugin.Files[k].Generate ==> spec.FileOK_client(g.plugin.Files[k])
